@@ -168,3 +168,49 @@ def replay_render(harness, failure, variants=()):
             r2["detail"] = "overlapping geometry variant: " + r2["detail"]
             return r2
     return rep
+
+
+def integerish_variants(inputs, tiny="1/5000000", max_variants=6):
+    """Replay battery for defects that hide behind the TEXT of the numbers (the symbolic run sees
+    placeholders, not digits): every input a small distinct integer, except one tiny value whose
+    repr is in exponent form without a decimal point (2e-07)."""
+    names = sorted(inputs)
+    base = {}
+    for i, n in enumerate(names):
+        if n[:1] == "o":
+            base[n] = "1"
+        elif n[:1] in "whrs":
+            base[n] = str(3 + i % 5)
+        else:
+            base[n] = str(1 + (i * 3) % 11)
+    yield dict(base)
+    k = 0
+    for n in names:
+        if n[:1] in "owhrs":
+            continue
+        v = dict(base)
+        v[n] = tiny
+        yield v
+        k += 1
+        if k >= max_variants:
+            break
+
+
+def collinear_variant(inputs, ndigits):
+    """Replay geometry on which ROUNDING creates area: every point triple x<k>,y<k> is exactly
+    collinear as authored and stops being collinear once rounded to `ndigits` (the abstract Skia
+    area treats the area before and after rounding as unrelated numbers; this realises that)."""
+    import re as _re
+
+    s = 10.0 ** (-ndigits)
+    pat = [(0.0, 0.0), (2.5 * s, 5.0 * s), (10.0, 20.0)]
+    out = {k: v for k, v in inputs.items()}
+    for k in inputs:
+        m = _re.fullmatch(r"([xy])(\d+)", k)
+        if not m:
+            continue
+        i = int(m.group(2)) - 1
+        g = i // 3
+        px, py = pat[i % 3]
+        out[k] = repr((px if m.group(1) == "x" else py) + g)
+    return out
